@@ -158,3 +158,48 @@ ADD4 = {
 for _k, (_t, _x) in ADD4.items():
     _tech, _text, _note = CLAIMED[_k]
     CLAIMED[_k] = (_tech + _t, _text + _x, _note)
+
+# ---- round 5
+ADD5 = {
+ "C02": ("; who-may-call rule for the writers of the Go-type binding (reflection arm only); sibling agreement of the invocation arms on value-with-error",
+         " Also decides that the lazily cached Go type is written on the reflection strategy only (mixed graphs) and that no strategy alone drops a value returned with an error."),
+ "C03": ("; active-path guard sets on reference edges of fanning-out components",
+         " A second genuine exponential walk (SetContextRecursive) was found by this rule and repaired."),
+ "C04": ("; constant base 10 of integer parses in input coercers",
+         " Also decides that integer text is read as decimal."),
+ "C05": ("; representation sets: dynamic types returned by each built-in scalar's output coercer (paired with the error result) vs. a frozen table; constant base 10 of integer parses",
+         " Also decides that an output coercer returns only values of its scalar's representation, whatever their magnitude."),
+ "C06": ("; visited-set rule on the spread -> fragment edge; single-exit shape of the selection walker's loop",
+         " Also decides that a fragment is applied to an object once (one entry per failure) and that no selection after a failing one is left out."),
+ "C07": ("; reachability rule on the scratch map of shallow (subscription) field resolution; origin of every error appended at request time (never a schema node's field)",
+         " Also decides that a rejected subscription request carries no data, and that reported errors are built for the submitted document."),
+ "C08": ("; re-statement of the dispatcher-origin part of C06.G1",
+         " Also decides that each list element reaches the dispatcher with the declared element type (members are chosen per element)."),
+ "C09": ("; must-pass-through rule of the field resolver (key stored or error reported on every path)",
+         " Also decides that a field no directive excludes cannot vanish from the response."),
+ "C10": ("; re-statement of C04.ARMS for variables",
+         " Also decides that an unset variable cannot satisfy a required argument."),
+ "C11": ("; struct copies held in fresh objects",
+         " A copied directive use that still shares its argument map with the request is seen."),
+ "C12": ("; freshness of the argument map handed to application resolvers (provenance paths)",
+         " Also decides that nothing handed to application code is taken from storage other requests reuse."),
+ "C13": ("; control dependence of the per-field conformance check; effect summary of Root.validate vs. schema nodes (no verdict caches)",
+         " Also decides that every field of every implemented interface is compared, and that validation keeps no verdict on schema nodes."),
+ "C14": ("; single-entry rule for the multi-source loader",
+         " Also decides that ParseFS is one load transaction."),
+ "C15": ("; constant-format rule over the printer family; freshness of the whole-schema printer's result",
+         " Also decides that schema text is never used as a format string and that the whole-schema printer renders on every call."),
+ "C16": ("; effect summary of the reference replacement pass (placeholder replacements only); call-graph rule: no coercer reachable from the SDL scanner",
+         " Also decides that nothing but the replacement itself depends on whether a name was bound at scan time or later."),
+ "C17": ("; dominance of every reason lookup by the @deprecated test of the same use",
+         " Also decides that deprecationReason is the reason of the @deprecated use itself."),
+ "C18": ("; helper-call rule of the value writer (strings only through the escaping writer)",
+         " Also decides that no other printing helper writes a string of a value."),
+ "C19": ("; error gate of the registration",
+         " Also decides that a subscription request answered with errors registers nobody."),
+ "C20": ("; re-statement of C19.PAIR",
+         " Also decides that a clean-up callback is made exactly where its subscription leaves the registry."),
+}
+for _k, (_t, _x) in ADD5.items():
+    _tech, _text, _note = CLAIMED[_k]
+    CLAIMED[_k] = (_tech + _t, _text + _x, _note)
